@@ -47,6 +47,9 @@ def _menu(client):
         for hl in (req_like, "BAD", "WRONGROLE"):
             for es in (False, True):
                 m.append(("send_headers:%d:%s:%d" % (sid, hl, es), "send_headers", (sid, hl, es)))
+        if not client and sid in (1, 2, 3):
+            # an informational (103) block, also on a stream that is only promised so far
+            m.append(("send_headers:%d:INFO:0" % sid, "send_headers", (sid, "INFO", False)))
         if sid in (1, 3):
             # valid list, priority weight outside 1..256: refused after the stream object may already exist
             m.append(("send_headers:%d:%s:w300" % (sid, req_like), "send_headers_w300", (sid, req_like)))
@@ -165,6 +168,8 @@ class Spec:
             return H.ni(H.RESP)
         if kind == "BAD":
             return H.ni(BAD_REQ) if self.client else H.ni([(b"content-type", b"x")])
+        if kind == "INFO":
+            return H.ni([(b":status", b"103"), (b"link", b"</s.css>")])
         if kind == "WRONGROLE":
             return H.ni(H.RESP) if self.client else H.ni(H.REQ)
         raise ValueError(kind)
